@@ -57,6 +57,9 @@ Allowed(st, ev) ==
     \* an owner whose scope was left by an exception (destructor run during stack unwinding) has
     \* released its token like any other destroyed owner: looking the token up aborts
     [] ev.e = "unwound" -> ev.lookup = "abort" \/ ev.t \in DOMAIN st.live
+    \* destroy_sandbox + create_sandbox with owners alive: neither "its owner unregisters" nor "is
+    \* destroyed" - every token stays issued, taken and resolvable (Apply leaves the state alone)
+    [] ev.e = "sbxcycle" -> ev.out = "ok"
     [] ev.e = "olookup" ->
          /\ st.own[ev.o] \notin {None, 0}
          /\ ev.out = "ok" /\ ev.p = st.live[st.own[ev.o]] /\ ev.t = st.own[ev.o]
